@@ -148,6 +148,42 @@ def _has_empty_guard(fn_node) -> bool:
     return False
 
 
+def _running_extreme(fn_node, name: str):
+    """`it = iter(S); name = next(it); for v in it: if v < name: name = v`  ->  ('min', S)   (`>`: 'max'; also `<=` / `>=`, the
+    value is the same; also `for v in S` after `name = S[0]`-less seeds from next(iter(S))); None when ``name`` is bound any other way"""
+    stores = [n for n in ast.walk(fn_node) if isinstance(n, ast.Name) and n.id == name and isinstance(n.ctx, ast.Store)]
+    seeds = [n for n in walk_no_nested(fn_node) if isinstance(n, ast.Assign) and any(isinstance(t, ast.Name) and t.id == name for t in n.targets)
+             and isinstance(n.value, ast.Call) and call_name(n.value) == "next" and len(n.value.args) == 1 and isinstance(n.value.args[0], ast.Name)]
+    if len(seeds) != 1 or len(stores) != 2:
+        return None
+    itn = seeds[0].value.args[0].id
+    its = [n for n in walk_no_nested(fn_node) if isinstance(n, ast.Assign) and len(n.targets) == 1 and isinstance(n.targets[0], ast.Name) and
+           n.targets[0].id == itn]
+    if len(its) != 1 or not (isinstance(its[0].value, ast.Call) and call_name(its[0].value) == "iter" and len(its[0].value.args) == 1):
+        return None
+    src = its[0].value.args[0]
+    for lp in walk_no_nested(fn_node):
+        if not (isinstance(lp, ast.For) and isinstance(lp.iter, ast.Name) and lp.iter.id == itn and isinstance(lp.target, ast.Name) and not lp.orelse):
+            continue
+        v = lp.target.id
+        if any(isinstance(x, (ast.Break, ast.Continue, ast.Return)) for x in ast.walk(lp)):
+            return None
+        for st in lp.body:
+            if isinstance(st, ast.If) and not st.orelse and len(st.body) == 1 and isinstance(st.body[0], ast.Assign) and \
+                    len(st.body[0].targets) == 1 and isinstance(st.body[0].targets[0], ast.Name) and st.body[0].targets[0].id == name and \
+                    isinstance(st.body[0].value, ast.Name) and st.body[0].value.id == v and isinstance(st.test, ast.Compare) and \
+                    len(st.test.ops) == 1 and isinstance(st.test.left, ast.Name) and isinstance(st.test.comparators[0], ast.Name):
+                l, r, op = st.test.left.id, st.test.comparators[0].id, st.test.ops[0]
+                if (l, r) == (name, v):
+                    l, r = v, name
+                    op = {ast.Lt: ast.Gt, ast.LtE: ast.GtE, ast.Gt: ast.Lt, ast.GtE: ast.LtE}.get(type(op), type(None))()
+                if (l, r) == (v, name) and isinstance(op, (ast.Lt, ast.LtE)):
+                    return "min", src
+                if (l, r) == (v, name) and isinstance(op, (ast.Gt, ast.GtE)):
+                    return "max", src
+    return None
+
+
 def _reduce_of(fn_node) -> List[Tuple[str, ast.AST]]:
     """(reduction, operand) pairs of the final return: max(self.offset) -> ('max', self.offset)."""
     out = []
@@ -163,6 +199,11 @@ def _reduce_of(fn_node) -> List[Tuple[str, ast.AST]]:
                 out.append((x.func.attr, None))
             elif isinstance(x, ast.Constant) and x.value is None:
                 continue
+            elif isinstance(x, ast.Name) and _running_extreme(fn_node, x.id):
+                out.append(_running_extreme(fn_node, x.id))
+            elif isinstance(x, ast.Name) and any(isinstance(lp, (ast.For, ast.While)) and any(
+                    isinstance(y, ast.Name) and y.id == x.id and isinstance(y.ctx, ast.Store) for y in ast.walk(lp)) for lp in ast.walk(fn_node)):
+                out.append(("loop", x))         # computed by a loop of a shape that is not read
             else:
                 out.append(("?", x))
     return out
@@ -188,6 +229,8 @@ def rule_r3(ctx) -> List[R.Inst]:
         guard = _has_empty_guard(fn.node)
         if shape_ok and guard:
             insts.append(R.ok("C16.R3", key, file, line, idiom=f"{red}({'+'.join(sorted(terms))}) with empty guard"))
+        elif not shape_ok and any(r[0] == "loop" for r in reds):
+            insts.append(R.undec("C16.R3", key, file, line, f"{name} is computed by a loop whose shape is not recognised"))
         elif not shape_ok:
             insts.append(R.viol("C16.R3", key, file, line,
                                 f"{name} is not {red} over {'+'.join(sorted(terms))} of all rows",
@@ -213,6 +256,8 @@ def rule_r3(ctx) -> List[R.Inst]:
                                     construct=unparse(returns_of(fn.node)[-1])))
             else:
                 insts.append(R.ok("C16.R3", key, file, line, idiom="(first, last)"))
+        elif "loop" in kinds:
+            insts.append(R.undec("C16.R3", key, file, line, "the ends are computed by a loop whose shape is not recognised"))
         else:
             insts.append(R.viol("C16.R3", key, file, line, f"does not return (first, last): {kinds}",
                                 construct=unparse(returns_of(fn.node)[-1])[:160]))
